@@ -26,7 +26,7 @@ def register(M):
     def poll_cell(ex, cell, cx, dty):
         """poll the future stored in `cell` (used by combinator models)"""
         pin = Adt('Pin<&mut ?>', {(None, 0): Ref(cell, ())})
-        return future_poll(ex, {'self_ty': '', 'key': 'Future::poll', 'method': 'poll'}, [pin, cx], dty)
+        return M.table['Future::poll'](ex, {'self_ty': '', 'key': 'Future::poll', 'method': 'poll'}, [pin, cx], dty)
     M.poll_cell = poll_cell
 
     @reg('Future::poll', 'TryFuture::try_poll', 'FutureExt::poll_unpin')
@@ -42,6 +42,8 @@ def register(M):
             return ex.call_body(body, [pin, a[1]])
         if isinstance(v, Obj) and v.kind == 'future':
             return M.poll_future_obj(ex, cell, path, v, dty)
+        if isinstance(v, Obj) and v.kind == 'pyfut':
+            return v.poll(ex, cell, path, v, a[1], dty)
         if isinstance(v, Obj) and v.kind == 'join':
             outs = list(v.outs)
             for i, c in enumerate(v.cells):
@@ -220,14 +222,14 @@ def register_streams(M):
         cell, path = ex.deref(pin)
         v = ex.read_path(cell, path)
         if isinstance(v, Obj) and v.kind == 'next':
-            return poll_stream(ex, v.stream, dty)
+            return M.poll_stream(ex, v.stream, dty)
         return orig(ex, info, a, dty)
     for k in ('Future::poll', 'TryFuture::try_poll', 'FutureExt::poll_unpin'):
         M.table[k] = future_poll2
 
     @reg('Stream::poll_next', 'StreamExt::poll_next_unpin')
     def _(ex, info, a, dty):
-        return poll_stream(ex, a[0], dty)
+        return M.poll_stream(ex, a[0], dty)
 
     @reg('UnboundedSender::unbounded_send')
     def _(ex, info, a, dty):
